@@ -6,10 +6,10 @@ cd /verif
 LOG=${1:-/tmp/full_cycle.log}
 : > $LOG
 /venv/bin/python -B -m hsa.selftest >> $LOG 2>&1
-for i in $(seq -w 1 17); do ./check C$i quick | tail -1 >> $LOG; done
+for i in $(seq -w 1 17; echo 19); do ./check C$i quick | tail -1 >> $LOG; done
 rm -rf /tmp/repo_clean; git -C /repo worktree prune; cp -r /repo /tmp/repo_clean; rm -rf /tmp/repo_clean/.git
 HSA_REPO=/tmp/repo_clean /venv/bin/python tools/refuzz.py --jobs 16 2>&1 | grep -v "^\.\.\." >> $LOG
 /venv/bin/python tools/reeval_seeds.py 2>&1 | grep -v "detected_by \['" >> $LOG
 /venv/bin/python tools/reeval_refactors.py 2>&1 | tail -5 >> $LOG
-for i in $(seq -w 1 17); do ./check C$i thorough > /tmp/th_$i.log 2>&1; echo "C$i rc=$? $(tail -1 /tmp/th_$i.log)" >> $LOG; done
+for i in $(seq -w 1 17; echo 19); do ./check C$i thorough > /tmp/th_$i.log 2>&1; echo "C$i rc=$? $(tail -1 /tmp/th_$i.log)" >> $LOG; done
 echo DONE >> $LOG
